@@ -127,7 +127,8 @@ class C06(Property):
     shape = W.weighted("shape", [(4, "single"), (2, "add"), (2, "mul"),
                                  (2, "scale"), (1, "add3"), (1, "mulscale"),
                                  (1, "sub"), (1, "neg"), (1, "div"),
-                                 (2, "pow")])
+                                 (2, "pow"), (2, "addc"), (2, "dupscale"),
+                                 (1, "copyadd"), (1, "copymul")])
     if shape == "single":
       tree = single()
     elif shape in ("add", "mul"):
@@ -137,6 +138,21 @@ class C06(Property):
         tree["b"]["den"] = [[k, ["c", c[1]] if c[0] == "c" else ["c", 2]]
                             for k, c in tree["a"]["den"]]
         tree["a"]["den"] = [list(x) for x in tree["b"]["den"]]
+    elif shape == "addc":
+      tree = {"op": "addc", "a": single(), "c": coeff(p_stream=(1, 3)),
+              "how": W.pick("how", ["f+c", "c+f", "f-c", "c-f"])}
+    elif shape == "dupscale":
+      # the same filter object scaled twice and recombined: supported when
+      # only its denominator holds Streams (equal-denominator shortcut)
+      a = single()
+      a["num"] = [[k, ["c", 1 + (k % 3)]] for k, _ in a["num"]]
+      tree = {"op": "dupscale", "a": a,
+              "c1": W.pick("c1", [3, 2, -1, 5]), "c2": W.pick("c2", [4, 7, -6]),
+              "how": W.pick("dhow", ["+", "-"])}     # c1 +- c2 is never 0
+    elif shape in ("copyadd", "copymul"):
+      a = single()
+      a["num"], a["den"] = a["num"][:2], a["den"][:2]
+      tree = {"op": shape, "a": a}
     elif shape == "sub":
       tree = {"op": "sub", "a": single(), "b": single()}
     elif shape == "neg":
@@ -242,6 +258,15 @@ class C06(Property):
       {"tree": {"op": "add", "a": single([[0, S(1)]], [[0, C(2)], [1, C(1)]]),
                 "b": single([[1, S(2)]], [[0, C(2)], [1, C(1)]])},
        "lens": {"1": 6, "2": 6}, "xlen": 6, "cstream": 0},
+      {"tree": {"op": "addc", "how": "f+c", "c": C(2),
+                "a": single([[0, C(1)]], [[0, C(1)], [1, S(1)]], "quot")},
+       "lens": {"1": None}, "xlen": 9, "cstream": 0},
+      {"tree": {"op": "dupscale", "how": "+", "c1": 3, "c2": 2,
+                "a": single([[0, C(1)], [1, C(2)]], [[0, C(1)], [1, S(1)]])},
+       "lens": {"1": 8}, "xlen": None, "cstream": 0},
+      {"tree": {"op": "copymul",
+                "a": single([[0, S(1)], [1, C(2)]], [[0, C(1)], [1, S(2)]])},
+       "lens": {"1": None, "2": None}, "xlen": 8, "cstream": 0},
       {"tree": {"op": "pow", "n": 3,
                 "a": single([[0, S(1)], [1, C(2)]], [[0, C(1)], [1, S(2)]])},
        "lens": {"1": None, "2": 9}, "xlen": 7, "cstream": 0},
@@ -315,6 +340,21 @@ class C06(Property):
         return rec(t["a"]) / rec(t["b"])
       if op == "pow":
         return rec(t["a"]) ** t["n"]
+      if op == "addc":
+        f, c = rec(t["a"]), cval(t["c"])
+        return {"f+c": lambda: f + c, "c+f": lambda: c + f,
+                "f-c": lambda: f - c, "c-f": lambda: c - f}[t["how"]]()
+      if op == "dupscale":
+        h = rec(t["a"])
+        if t["how"] == "+":
+          return h * t["c1"] + h * t["c2"]
+        return h * t["c1"] - h * t["c2"]
+      if op == "copyadd":
+        f = rec(t["a"])
+        return f + f.copy()
+      if op == "copymul":
+        f = rec(t["a"])
+        return f.copy() * f
       f = rec(t["a"])
       c = cval(t["c"])
       return c * f if t["side"] == "l" else f * c
@@ -354,6 +394,22 @@ class C06(Property):
       n1, d1 = self.spec_polys(t["a"], n)
       n2, d2 = self.spec_polys(t["b"], n)
       return pmul(n1, d2), pmul(d1, n2)
+    if op == "addc":
+      n1, d1 = self.spec_polys(t["a"], n)
+      c = cv(t["c"])
+      sf, sc = {"f+c": (1, 1), "c+f": (1, 1), "f-c": (1, -1),
+                "c-f": (-1, 1)}[t["how"]]
+      return padd(pscale(sf, n1), pscale(sc * c, d1)), d1
+    if op == "dupscale":
+      n1, d1 = self.spec_polys(t["a"], n)
+      k = t["c1"] + t["c2"] if t["how"] == "+" else t["c1"] - t["c2"]
+      return pscale(k, n1), d1
+    if op == "copyadd":
+      n1, d1 = self.spec_polys(t["a"], n)
+      return pscale(2, n1), d1
+    if op == "copymul":
+      n1, d1 = self.spec_polys(t["a"], n)
+      return pmul(n1, n1), pmul(d1, d1)
     if op == "pow":
       n1, d1 = self.spec_polys(t["a"], n)
       nn, dd = {0: Fraction(1)}, {0: Fraction(1)}
@@ -579,7 +635,8 @@ class C06(Property):
                           "delivered %d items, output length %d"
                           % (r.name, r.delivered, out_len))
     # a stream feeding several product terms
-    if tree["op"] in ("mul", "add", "sub", "div", "pow") and sids:
+    if tree["op"] in ("mul", "add", "sub", "div", "pow", "copyadd", "copymul",
+                      "dupscale", "addc") and sids:
       res.counters["probe.stream-feeds-several-terms"] += 1
 
     # ---- (5) constant as constant stream (single and scaled filters only)
